@@ -301,10 +301,14 @@ def build(ctx):
     ctx.unit("euclid", lambda: unit_euclid(ctx))
     ctx.unit("fitting_uint", lambda: unit_fitting_uint(ctx))
     ctx.unit("integrity", lambda: unit_integrity(ctx))
+    # semantic input reaches these routines through the approximator, which re-types both maps: its value-preservation contract (C05)
+    include_stage(ctx, "C05")
     ctx.add_bounded("c09-enum", "c09.bounded")
 
 
 def concretise(ctx, o, r):
+    if (o.info or {}).get("stage"):
+        return stage_concretise(ctx, o, r)
     if o.replay in ("c09.overlap_layout", "c09.overlap_frame"):
         return {"dtype": o.info.get("dtype", "uint8")}
     ev = r.get("evals") or {}
